@@ -191,6 +191,16 @@ def relEval (prop : String) (params : List String) (src : Str) (outs : List Stri
       else ["relayout-mismatch"]
     | .ok _, .error _ => if isTree o2 then ["relayout-ill-typed"] else ["relayout-fails"]
     | .error e, _ => ["ill-typed:" ++ e]
+  | "C14inner", [_, _], [o1, o2] =>
+    -- a layout edit INSIDE a substitution changes the text of the enclosing word (its value keeps the substitution
+    -- verbatim), so only acceptance and the shape of the trees (kinds, in order, at every depth) are compared
+    if !o1.startsWith "OK " then [] else
+    match outcomeNodes o1, outcomeNodes o2 with
+    | .ok p1, .ok p2 =>
+      if (p1.map fun n => n.preorder.map Node.kind) == (p2.map fun n => n.preorder.map Node.kind) then []
+      else ["inner-relayout-changes-shape"]
+    | .ok _, .error _ => if isTree o2 then ["relayout-ill-typed"] else ["inner-relayout-fails"]
+    | .error e, _ => ["ill-typed:" ++ e]
   | "C11", [], [o] => errOK src o
   | "C10", ps, [o] =>
     -- params: groups of 4 per here-document operator, in operator order:
